@@ -156,15 +156,30 @@ def coqchk(pid, timeout=1500):
 
 
 # ------------------------------------------------------------------ modelrun
+def _modelrun_stamp():
+    h = hashlib.sha256()
+    for f in sorted(glob.glob(os.path.join(COQ, "*.v")) +
+                    glob.glob(os.path.join(COQ, "extract", "parts", "*.json")) +
+                    [os.path.join(VERIF, "ocaml", "driver.ml"), os.path.join(VERIF, "ocaml", "build.sh")]):
+        h.update(f.encode()); h.update(open(f, "rb").read())
+    return h.hexdigest()
+
+
 def build_modelrun():
     with Lock("ocaml"):
         sh([sys.executable, os.path.join(VERIF, "tools", "assemble.py")], timeout=60)
+        # the model runner depends only on the model sources (not on /repo): skip extraction + compilation when they are unchanged
+        stamp, sp = _modelrun_stamp(), os.path.join(BUILD, "modelrun.stamp")
+        if os.path.exists(os.path.join(BIN, "modelrun")) and os.path.exists(sp) and open(sp).read() == stamp:
+            return True, "cached"
         ex = os.path.join(COQ, "extract")
         # Extract.v depends only on *Defs.v files, so it builds even when a proof file is broken
         rc, o, e = sh("timeout 600 coqc -Q .. Cocls Extract.v", cwd=ex, timeout=640)
         if rc:
             return False, o + e
         rc, o, e = sh(os.path.join(VERIF, "ocaml", "build.sh"), timeout=300)
+        if rc == 0:
+            open(os.path.join(BUILD, "modelrun.stamp"), "w").write(stamp)
         return rc == 0, o + e
 
 
